@@ -1260,3 +1260,254 @@ def alias_context(par, node, is_ref, direct=True):
 
 
 ALIAS_BENIGN = frozenset({"copy", "overwrite", "test", "return", "discard"})
+
+
+# ----------------------------------------------------------------------------- values that derive from data members
+# (additive: used by C39's derived-state rule R-DERIVED; nothing above depends on it)
+
+ABRUPT_KINDS = ("ReturnStmt", "BreakStmt", "ContinueStmt", "GotoStmt", "CXXThrowExpr")
+_ASSIGN_OPS = ("=", "+=", "-=", "*=", "/=", "|=", "&=", "^=", "<<=", ">>=", "%=")
+
+
+def rooted_field(n):
+    """(field id, whole) when the lvalue n designates a data member of *this (whole=True) or a part of one that lives
+    inside it (`m.x`, `m[i]`, an element of a container member: whole=False).  Storage reached by following a pointer
+    held in the member (`m->x`, `*m`) is not part of the member: None."""
+    whole = True
+    n = skip(n)
+    while n is not None:
+        k = n.get("k")
+        if k == "MemberExpr" and n.get("t") != "<bound member function type>":
+            c = cir.kids(n)
+            base = skip(c[0]) if c else None
+            if base is None or base.get("k") == "CXXThisExpr":
+                return (n.get("mid"), whole) if n.get("mid") else None
+            if n.get("arrow"):
+                return None
+            n, whole = base, False
+            continue
+        if k == "ArraySubscriptExpr":
+            n, whole = skip(cir.kids(n)[0]), False
+            continue
+        if k == "CXXOperatorCallExpr" and op_name(n) == "[]":
+            a = op_args(n)
+            n, whole = (skip(a[0]) if a else None), False
+            continue
+        return None
+    return None
+
+
+def assignment_parts(x):
+    """(target, value, operator) of an assignment in either spelling (built-in or overloaded operator), else None."""
+    k = x.get("k")
+    if k in ("BinaryOperator", "CompoundAssignOperator") and x.get("op") in _ASSIGN_OPS:
+        c = cir.kids(x)
+        return c[0], c[1], x.get("op")
+    if k == "CXXOperatorCallExpr" and op_name(x) in _ASSIGN_OPS:
+        a = op_args(x)
+        if len(a) == 2:
+            return a[0], a[1], op_name(x)
+    return None
+
+
+class MemberFlow:
+    """Which values in a set of functions derive from the data members `sources` (ids of FieldDecls) of one class.
+
+    Data flow: an expression derives from the sources when it mentions one of them, a local / parameter / structured
+    binding that was initialised or assigned from such an expression, or a call of one of the functions that returns such a
+    value (parameters are followed through every call site, results through the return statements; least fixed point over
+    all functions, flow-insensitive inside a function).
+    Control: `controlled(f, node)` says that whether `node` executes depends on a condition that derives from the sources:
+    it lies in an arm / body governed by such a condition, or after a statement that can leave the enclosing block
+    (return / break / continue / throw) under such a condition -- so what follows a failed search of a table is governed
+    by that search, whichever way the search is written (early return, nested if, loop with a return inside).  A callee
+    that is called from a governed place is governed from its first statement (`ctl_in`).
+    Functions are objects with `.node` (definition) and `.params`; `callee(call)` resolves a call to one of them or None.
+    `cond_pred(flow, cond, f)` may narrow which conditions count (default: the condition derives from the sources)."""
+
+    def __init__(self, fns, sources, callee, cond_pred=None):
+        self.fns = [f for f in fns if cir.body(f.node) is not None]
+        self.sources = set(sources)
+        self.callee = callee
+        self.cond_pred = cond_pred
+        self.tl = {id(f): set() for f in self.fns}
+        self.ret = {id(f): False for f in self.fns}
+        self.ctl_in = {id(f): False for f in self.fns}
+        self.marked = {id(f): frozenset() for f in self.fns}
+        self.marked_local = {id(f): frozenset() for f in self.fns}    # the same without what the callers contribute
+        self._solve()
+
+    # -- queries
+    def mentions(self, e, f):
+        if e is None:
+            return False
+        tl = self.tl.get(id(f), ())
+        for x in walk(e):
+            k = x.get("k")
+            if k == "MemberExpr":
+                if x.get("mid") in self.sources:
+                    return True
+            elif k == "DeclRefExpr":
+                if (x.get("ref") or {}).get("id") in tl:
+                    return True
+            if k in ("CallExpr", "CXXMemberCallExpr"):
+                g = self.callee(x)
+                if g is not None and self.ret.get(id(g)):
+                    return True
+        return False
+
+    def controlled(self, f, node, local=False):
+        return id(node) in (self.marked_local if local else self.marked).get(id(f), ())
+
+    def governs(self, cond, f):
+        if cond is None:
+            return False
+        if self.cond_pred is not None:
+            return bool(self.cond_pred(self, cond, f))
+        return self.mentions(cond, f)
+
+    # -- fixed point
+    def _solve(self):
+        for rounds in range(60):
+            changed = False
+            for f in self.fns:
+                changed |= self._locals(f)
+                ml = self._region(f, False)
+                m = self._region(f, True) if self.ctl_in[id(f)] else ml
+                if m != self.marked[id(f)] or ml != self.marked_local[id(f)]:
+                    self.marked[id(f)], self.marked_local[id(f)] = m, ml
+                    changed = True
+                if not self.ret[id(f)]:
+                    # what a function returns derives from the sources through the value or through a test made in the
+                    # function itself; that a *caller* reached it under such a test says nothing about the value
+                    for x in walk(f.node, lambdas=False):
+                        if x.get("k") == "ReturnStmt" and (id(x) in ml or any(self.mentions(c, f) for c in cir.kids(x))):
+                            self.ret[id(f)] = True
+                            changed = True
+                            break
+                for x in walk(f.node):
+                    if x.get("k") not in ("CallExpr", "CXXMemberCallExpr"):
+                        continue
+                    g = self.callee(x)
+                    if g is None or id(g) not in self.tl:
+                        continue
+                    if id(x) in m and not self.ctl_in[id(g)]:
+                        self.ctl_in[id(g)] = True
+                        changed = True
+                    for p, a in zip(g.params, cir.kids(x)[1:]):
+                        if p.get("id") not in self.tl[id(g)] and self.mentions(a, f):
+                            self.tl[id(g)].add(p.get("id"))
+                            changed = True
+            if not changed:
+                return
+        raise AnalysisError("MemberFlow: no fixed point after 60 rounds")
+
+    def _locals(self, f):
+        tl = self.tl[id(f)]
+        n0 = len(tl)
+        for x in walk(f.node):
+            k = x.get("k")
+            if k in ("VarDecl", "DecompositionDecl"):
+                if x.get("id") in tl:
+                    continue
+                if any(self.mentions(c, f) for c in cir.kids(x) if c is not None and c.get("k") != "BindingDecl"):
+                    tl.add(x.get("id"))
+                    for b in cir.kids(x):
+                        if b is not None and b.get("k") == "BindingDecl":
+                            tl.add(b.get("id"))
+                continue
+            ap = assignment_parts(x)
+            if ap is not None:
+                vid = _ref_id(ap[0])
+                if vid is not None and vid not in tl and self.mentions(ap[1], f):
+                    tl.add(vid)
+                continue
+            if k == "CXXMemberCallExpr":          # `local.push_back(v)`, `local.emplace(k, v)`: the local now holds v
+                r = receiver(x)
+                vid = _ref_id(r[0]) if r and r[0] is not None else None
+                if vid is not None and vid not in tl and any(self.mentions(a, f) for a in cir.kids(x)[1:]):
+                    tl.add(vid)
+        return len(tl) != n0
+
+    def _region(self, f, entry_ctl):
+        marked = set()
+
+        def mark(s):
+            for x in walk(s):
+                marked.add(id(x))
+
+        def seq(lst, ctl):
+            esc = False
+            for s in lst:
+                if s is None:
+                    continue
+                esc = one(s, ctl or esc) or esc
+            return esc
+
+        def exprs(s):
+            for x in walk(s, lambdas=False):
+                k = x.get("k")
+                if k in ("ConditionalOperator", "BinaryConditionalOperator"):
+                    c = cir.kids(x)
+                    if self.governs(c[0], f):
+                        for a in c[1:]:
+                            mark(a)
+                elif k == "BinaryOperator" and x.get("op") in ("&&", "||"):
+                    c = cir.kids(x)
+                    if self.governs(c[0], f):
+                        mark(c[1])
+
+        def one(s, ctl):
+            if s is None:
+                return False
+            if ctl:
+                mark(s)
+                return any(x.get("k") in ABRUPT_KINDS for x in walk(s, lambdas=False))
+            k = s.get("k")
+            c = list(cir.kids(s))
+            if k == "CompoundStmt":
+                return seq(c, False)
+            if k == "IfStmt":
+                idx = 0
+                pre = []
+                if s.get("hasInit"):
+                    pre.append(c[idx])
+                    idx += 1
+                if s.get("hasVar"):
+                    pre.append(c[idx])
+                    idx += 1
+                for p in pre:
+                    exprs(p)
+                cond = c[idx] if len(c) > idx else None
+                exprs(cond)
+                t = self.governs(cond, f) or bool(s.get("hasVar") and self.governs(pre[-1], f))
+                e = False
+                for arm in c[idx + 1:idx + 3]:
+                    e = one(arm, t) or e
+                return e
+            if k in ("WhileStmt", "ForStmt", "DoStmt", "CXXForRangeStmt"):
+                if k == "DoStmt":
+                    body, heads = (c[0] if c else None), c[1:]
+                else:
+                    body, heads = (c[-1] if c else None), c[:-1]
+                for h in heads:
+                    exprs(h)
+                t = any(self.governs(h, f) for h in heads if h is not None)
+                e = one(body, t)
+                if e and not t:               # later iterations run only if the governed exit was not taken
+                    mark(s)
+                return e
+            if k == "SwitchStmt":
+                heads, body = c[:-1], (c[-1] if c else None)
+                for h in heads:
+                    exprs(h)
+                return one(body, any(self.governs(h, f) for h in heads if h is not None))
+            if k in ABRUPT_KINDS:
+                exprs(s)
+                return False
+            if k.endswith("Stmt") and k not in ("DeclStmt", "NullStmt"):     # labels, attributes, try / catch
+                return seq([y for y in c if y is not None and not y.get("k", "").endswith("Attr")], False)
+            exprs(s)
+            return False
+        seq([cir.body(f.node)], entry_ctl)
+        return frozenset(marked)
